@@ -191,7 +191,16 @@ class Cases:
             if aug is None:
                 return (tag,)
             raise Inconclusive("unsupported update operator %s" % aug)
+        self._plain_base(t)
         return (base_tag,)
+
+    @staticmethod
+    def _plain_base(t):
+        # what is left under the recognised updates must be the untouched vector / matrix: a value that is itself the result of a loop or
+        # of further stores is an update these tables do not read (and must not be taken for "no update")
+        for x in walk(t):
+            if isinstance(x, tuple) and x and x[0] in ("mu", "after", "store", "phi"):
+                raise Inconclusive("the vector is also updated in a way the outcome table does not read (%s)" % fmt(x)[:60])
 
     def ev_W(self, t):
         k = t[0]
@@ -222,6 +231,7 @@ class Cases:
                 D = parsed_col(r)[0]
                 return "row-cut" if self.member(D) else below
             raise Inconclusive("W store with an unrecognised index %s" % fmt(idx)[:60])
+        self._plain_base(t)
         return "kept"
 
 
@@ -460,7 +470,13 @@ def run(prog, rep, tier):
     table = {}
     bad = []
     n_eval = 0
-    for d, s, z in itertools.product([False, True], repeat=3):
+    carried = sorted({a_ for li_ in S.loopinfo.values() if li_["func"] == f.qname for v_ in li_["init"].values() for a_ in ("W", "means", "variances") if roots(v_, a_)})
+    if carried:
+        # the working copies are updated inside a loop (one intervention / one target at a time): their final value is a loop term, and reading the
+        # value *before* the loop as the outcome would take "updated in the loop" for "not updated"
+        rep.unk("CASES.lganm", fwhere(f), "the working copies of %s are updated inside a loop; the outcome table reads straight-line updates only" % " / ".join(carried))
+        bad = None
+    for d, s, z in (itertools.product([False, True], repeat=3) if bad is not None else ()):
         outs = set()
         for fd, fs_, fz in itertools.product([False, True], repeat=3):
             facts = {"d": d, "s": s, "z": z}
